@@ -26,6 +26,41 @@ Theorem C12_prefix_partial : forall t bs v r,
 Proof. exact prefix_current_partial. Qed.
 Print Assumptions C12_prefix_partial.
 
+(* THE STATEMENT TIED TO THE CODE: on the current tree, for every well-formed type and every byte
+   string, an accepted input outside the two finding guards - the same two boolean guards the
+   driver evaluates on every case (Model.bytes_overrun, Model.map_noncanonical) - returned a
+   well-typed value whose canonical encoding is exactly the consumed prefix *)
+Theorem C12_prefix_guarded : forall t bs v r,
+  wf_ty t = true -> decode_res current t bs = Ok (v, r) ->
+  bytes_overrun t bs = false -> map_noncanonical t bs = false ->
+  has_type v t = true /\ bs = spec_encode t v ++ r.
+Proof. exact prefix_guarded. Qed.
+Print Assumptions C12_prefix_guarded.
+
+(* the guards are narrow: they never fire on an input the tree decodes canonically (so every
+   guarded acceptance is a real failure of the property) *)
+Theorem C12_guards_only_failures : forall t bs v r,
+  wf_ty t = true -> decode_res current t bs = Ok (v, r) ->
+  has_type v t = true -> bs = spec_encode t v ++ r -> has_uint57 t v = false ->
+  bytes_overrun t bs = false /\ map_noncanonical t bs = false.
+Proof. exact guards_only_failures. Qed.
+Print Assumptions C12_guards_only_failures.
+
+(* truncation and non-canonical input on the current tree, outside the guards *)
+Theorem C12_truncation_guarded : forall t v p s,
+  wf_ty t = true -> has_type v t = true -> spec_encode t v = p ++ s -> s <> [] ->
+  bytes_overrun t p = false -> map_noncanonical t p = false ->
+  forall w r, decode_res current t p <> Ok (w, r).
+Proof. exact truncation_guarded. Qed.
+Print Assumptions C12_truncation_guarded.
+
+Theorem C12_noncanonical_guarded : forall t bs,
+  wf_ty t = true -> (forall v r, has_type v t = true -> bs <> spec_encode t v ++ r) ->
+  bytes_overrun t bs = false -> map_noncanonical t bs = false ->
+  forall w r, decode_res current t bs <> Ok (w, r).
+Proof. exact noncanonical_guarded. Qed.
+Print Assumptions C12_noncanonical_guarded.
+
 (* every strict prefix of a canonical encoding is rejected (never zero-filled) *)
 Theorem C12_truncation_ideal : forall t v p s,
   wf_ty t = true -> has_type v t = true -> spec_encode t v = p ++ s -> s <> [] ->
@@ -110,5 +145,7 @@ Example C12_nonvacuous :
   decode_res current t bs = Ok (VList (VCons (VList (VCons (VN 1) (VCons (VN 2) VNil)))
                                 (VCons (VSome (VN 1073741824)) (VCons (VBytes [b 65]) VNil))), []) /\
   decode_res ideal t bs = decode_res current t bs /\
-  decode_res current t (firstn 12 bs) = Err 1%nat.
+  bytes_overrun t bs = false /\ map_noncanonical t bs = false /\
+  decode_res current t (firstn 12 bs) = Err 1%nat /\
+  bytes_overrun t (firstn 12 bs) = false.
 Proof. vm_compute. repeat split; reflexivity. Qed.
